@@ -355,6 +355,16 @@ async fn scenario(a: &ShardArgs, idx: u64) {
         if npoints > 0 {
             some_events(db, &mut rr, npoints, nevents, 1000);
         }
+        // device attributes of a private set: a writable visible string and a read-only one
+        use crate::app::attr::{AttrProp, AttrSet, OwnedAttrValue, OwnedAttribute};
+        let _ = db.define_attr(
+            AttrProp::writable(),
+            OwnedAttribute::new(AttrSet::new(7), 1, OwnedAttrValue::VisibleString("initial".into())),
+        );
+        let _ = db.define_attr(
+            AttrProp::default(),
+            OwnedAttribute::new(AttrSet::new(7), 2, OwnedAttrValue::VisibleString("fixed".into())),
+        );
     })
     .await;
     // what the application answers to restart requests and to the processing-delay question
